@@ -178,6 +178,57 @@ Proof.
     change (getd w0 d) with x. unfold t_live. cbn. destruct (pristine_facts x PR) as [_ [_ [_ [_ [_ [SH _]]]]]]. exact SH.
 Qed.
 
+(** the clocks of a processor constructed at [nw] start at [nw]: what it reports as uptime and utilisation right after its
+    construction is what it had accumulated before (nothing, for a fresh device) — the time before its creation does not count *)
+Lemma late_create_clock fuel nw w d ups x :
+  GoodW w -> aget d (f_devs w) = Some x -> d_kind x = KProcessor -> d_live x = false -> pristine x = true ->
+  d_up x = [] -> d_down x = [] ->
+  exists x', aget d (f_devs (late_create fuel nw w d ups)) = Some x' /\ d_kind x' = KProcessor /\
+             up_total nw x' = d_uptime x /\ use_total nw x' = d_inuse x.
+Proof.
+  intros G Hx K L PR U D. unfold late_create. rewrite (getd_some w d x Hx), L, PR, K, U, D.
+  assert (AM : amem d (f_devs w) = true) by (unfold amem; rewrite Hx; reflexivity). rewrite AM. cbn [orb negb late_kind].
+  set (w0 := w <| f_next_id := f_next_id w + 1 |>). set (w1 := updd w0 d t_live).
+  destruct (pristine_facts x PR) as [_ [_ [_ [_ [LU [SH _]]]]]].
+  assert (G0 : GoodW w0) by (apply (GoodW_same w); [reflexivity|reflexivity|exact G]).
+  assert (X1 : aget d (f_devs w1) = Some (t_live x)).
+  { unfold w1, updd, setd. cbn. rewrite aget_arepl, Z.eqb_refl. cbn. change (amem d (f_devs w0)) with (amem d (f_devs w)). rewrite AM.
+    change (getd w0 d) with (getd w d). rewrite (getd_some w d x Hx). reflexivity. }
+  assert (G1 : GoodW w1).
+  { destruct G0 as [A B]. split; [|apply HoldW_updd; [intro y; split; reflexivity|exact B]].
+    intros d' y Hy. unfold w1, updd, setd in Hy. cbn in Hy. apply aget_arepl_some in Hy.
+    destruct Hy as [[-> [-> M]]|Hy]; [|apply (A d' y Hy)].
+    change (getd w0 d) with (getd w d). rewrite (getd_some w d x Hx). apply AllInv_live, (A d x Hx). }
+  set (w2 := init_dev fuel nw w1 d).
+  assert (G2 : GoodW w2).
+  { apply init_dev_good; [exact G1|]. intros y Hy _. rewrite X1 in Hy. injection Hy as <-. exact SH. }
+  assert (GX1 : getd w1 d = t_live x) by (apply getd_some, X1).
+  assert (KX : d_kind (t_live x) = KProcessor) by exact K.
+  assert (AM1 : amem d (f_devs w1) = true) by (unfold amem; rewrite X1; reflexivity).
+  assert (GX2 : getd w2 d = dev_set_wait nw true true (t_live x) <| d_last_restore := Some nw |>).
+  { unfold w2, init_dev. rewrite GX1, KX. cbn [is_holder]. rewrite getd_updd, Z.eqb_refl, amem_updd, AM1. cbn [andb].
+    rewrite getd_updd, Z.eqb_refl, AM1. cbn [andb]. rewrite GX1. reflexivity. }
+  assert (AM2 : amem d (f_devs w2) = true) by (unfold w2, init_dev; rewrite GX1, KX; cbn [is_holder]; rewrite !amem_updd; exact AM1).
+  assert (X2 : aget d (f_devs w2) = Some (dev_set_wait nw true true (t_live x) <| d_last_restore := Some nw |>)).
+  { destruct (amem_some _ _ AM2) as [y2 Hy2]. rewrite <- GX2. rewrite (getd_some w2 d y2 Hy2). exact Hy2. }
+  destruct (R_rel nw AcctInv (acct_rel nw)) with (n := MNeutral) (w := w2) (w' := rewire fuel nw w2 d ups) (d := d)
+    (x := dev_set_wait nw true true (t_live x) <| d_last_restore := Some nw |>) as [x' [Hx' [K' A']]].
+  - intro y. split; [reflexivity|auto].
+  - intros y1 y2 y3 [K1 A1] [K2 A2]. split; [congruence|]. intro KK. destruct (A1 KK) as [U1 S1].
+    rewrite <- K1 in KK. destruct (A2 KK) as [U2 S2]. split; congruence.
+  - apply stable_AcctInv.
+  - intros g f Pr y Gy I. apply (acct_prim nw g f Pr y Gy I).
+  - intros pid f Hid y _. split; [reflexivity|]. intros _. split; reflexivity.
+  - apply R_rewire.
+  - intros d' y Hy. exact (proj1 (proj2 (proj2 (proj2 (proj2 (proj1 G2 d' y Hy)))))).
+  - exact X2.
+  - exists x'. split; [exact Hx'|].
+    assert (KK : d_kind (dev_set_wait nw true true (t_live x) <| d_last_restore := Some nw |>) = KProcessor).
+    { unfold dev_set_wait, t_live. cbn. destruct (d_wait_since x); cbn; exact K. }
+    split; [rewrite K'; exact KK|]. destruct (A' KK) as [UP US]. rewrite UP, US. unfold up_total, use_total, dev_set_wait, t_live. cbn.
+    destruct (d_wait_since x); cbn; rewrite ?LU; split; lia.
+Qed.
+
 (** initialisation shuts nothing down *)
 Lemma sched_pass_shut nw off w d d' : d_shut (getd (sched_pass nw off w d) d') = d_shut (getd w d').
 Proof.
